@@ -256,11 +256,29 @@ pub fn run_tool(c: &ToolCase, dir: &Path, findings: &Findings) -> Result<CaseOut
         Some(i) => orig.records[..i].iter().collect(),
         None => vec![],
     };
-    for skip in [false, true] {
-        let out_dir = dir.join(if skip { "rec-skip" } else { "rec-noskip" });
+    // variants: recovery_blob without / with skipping, and the in-place wrapper move_and_recover_blob (= skipping) called
+    // with a backup path that already holds an older file (a repair repeated under the same backup name)
+    for (variant, skip) in [(0u8, false), (1, true), (2, true)] {
+        let out_dir = dir.join(match variant {
+            0 => "rec-noskip",
+            1 => "rec-skip",
+            _ => "rec-inplace",
+        });
+        let _ = std::fs::remove_dir_all(&out_dir);
         let _ = std::fs::create_dir_all(&out_dir);
         let out = sut::blob_path(&out_dir, 0);
-        let res = tools::recovery_blob(&damaged, &out, c.validate_every as usize, skip);
+        let res = if variant == 2 {
+            let _ = std::fs::copy(&damaged, &out);
+            let bak = out_dir.join("saved.bak");
+            // what an earlier run left under that name: the blob as it was after its first record
+            let stale_len = orig.records.first().map_or(blobfmt::BLOB_HEADER_LEN as u64, |r| r.end());
+            let all = std::fs::read(&blob).unwrap_or_default();
+            let _ = std::fs::write(&bak, &all[..(stale_len as usize).min(all.len())]);
+            labels.insert("in_place_recovery_over_existing_backup".into());
+            tools::move_and_recover_blob(&out, &bak, c.validate_every as usize)
+        } else {
+            tools::recovery_blob(&damaged, &out, c.validate_every as usize, skip)
+        };
         if header_damage {
             // nothing recoverable is promised when the blob header itself is damaged; the tool may refuse
             if res.is_err() {
